@@ -13,6 +13,7 @@ func init() {
 			"*worktreeFilesystem, none promoted from the raw filesystem; (path-validated) inside each, the raw filesystem is reached only after " +
 			"validWritePath (mutators, all path arguments) / validReadPath (readers) succeeded, Symlink also validSymlinkName, Chroot also the final-component symlink check; " +
 			"(validator-composition, reject-rules) the validators chain validPath and validNoLeadingSymlink and still contain each rejecting rule; " +
+			"(validator-loops-exhaustive) every loop of the validators (over paths, bytes, components, ancestor directories) is left only by its condition or a rejecting return: no break, goto, labelled continue or accepting return; " +
 			"(raw-fs-access) the wrapped raw filesystem and Repository.wt are used only in a frozen set of functions; (unblock-before-write) every creating call on a " +
 			"*worktreeFilesystem is preceded by clearBlockingSymlinks in the function or in all its callers; (tree-path-validated) FindEntry, TreeEntryFile, TreeWalker.Next, " +
 			"Index.Add, Submodule.Repository and DotGit.Module validate before use. Not decided: completeness of the HFS/NTFS disguise tables, TOCTOU between Lstat and use.",
@@ -270,6 +271,17 @@ func runC26(c *Ctx) {
 		RejectRule(c, rr, vtp, "volume-name", condCalls("path/filepath.VolumeName"), nil)
 	}
 	c.Floor(rr, 18)
+
+	// 4b. the validators examine every path, every component and every ancestor: their loops are left only when the
+	// loop condition fails or by a rejecting return (an early break / accepting return skips the remaining components)
+	const rl = "validator-loops-exhaustive"
+	for _, vf := range []*FuncInfo{validP, validL, validS, p.Func("internal/pathutil.ValidTreePath")} {
+		if vf == nil || vf.Decl.Body == nil {
+			continue
+		}
+		LoopsExhaustive(c, rl, vf)
+	}
+	c.Floor(rl, 7)
 
 	// 5. raw-fs-access
 	const ra = "raw-fs-access"
